@@ -19,7 +19,7 @@ def run(ctx):
     cfgw = dict(nt=1, nx=2, sync=False, rollback=False, faults=True, crash=False, work=True)
     wbad = ['bad:c09-idle-not-fixed-point', 'bad:c09-idle-not-final']
     dw = 20 if quick else 30
-    qw = [('reach', 28, ['reach:tx1-applied']), ('bad', dw, [wbad[0]]), ('bad', dw, [wbad[1]])]
+    qw = [('reach', 28, ['reach:tx1-applied']), ('bad', dw, wbad)] if quick else [('reach', 28, ['reach:tx1-applied']), ('bad', dw, [wbad[0]]), ('bad', dw, [wbad[1]])]
     wsteps = 12 if quick else 20
     if not quick:
         qw += [('bad', wsteps, wbad, way2(a, b)) for a, b in (('C', 'C'), ('C', 'F'), ('A', 'C'), ('F', 'C'))]
